@@ -77,7 +77,7 @@ class C19(Prop):
     assumptions = ['scheduler compared through the public properties of the preconditioner',
                    'the preconditioner step count is set with load_state_dict({"steps": k}, compute_inverses=False)']
     examples = {'quick': 700, 'thorough': 3000}
-    shards = {'quick': 2, 'thorough': 16}
+    shards = {'quick': 8, 'thorough': 16}
     enum_shards = {'quick': 2, 'thorough': 16}
     required_labels = {'quick': ['kind=sched', 'kind=exp', 'refused=True', 'nontrivial=True', 'failed_step=True'],
                        'thorough': ['kind=sched', 'kind=exp', 'refused=True', 'nontrivial=True', 'failed_step=True']}
